@@ -161,6 +161,9 @@ def run(ctx):
                        'registered on the empty -> non-empty transition of the local queue', floor=4)
     ctx.rule('R-C12f', 'thread bound: a worker thread is started only under the pool lock on the edge started_threads < max_threads, '
                        'and is counted before the lock is dropped', floor=6)
+    ctx.rule('R-C12g', 'COMPLETE-BEFORE-TEARDOWN: a published pool is released (pool record freed, completion event unregistered, pool lock '
+                       'destroyed) only when its done queue is known empty: found empty under the pool lock in the last pool-lock region, '
+                       'nothing queued and no user callback since (every item whose work function ran gets its completion)', floor=3)
     ctx.section(thread_bound)
     ctx.section(callbacks)
     ctx.section(queues)
@@ -168,6 +171,7 @@ def run(ctx):
     ctx.section(submit)
     ctx.section(leftover)
     ctx.section(local)
+    ctx.section(teardown)
 
 
 # ------------------------------------------------------------------------------------------------------------------
@@ -651,3 +655,85 @@ def local(ctx):
                detail='the local task is registered exactly when the local queue is known empty at the add%s%s%s'
                       % ('; emptiness NOT known at the add' if untested else '', '; registered off the empty edge' if offedge else '',
                          '; empty queue but task NOT registered' if owing else ''), fn=root.q)
+
+
+# ------------------------------------------------------------------------------------------------------------------
+# R-C12g
+# ------------------------------------------------------------------------------------------------------------------
+
+TEARDOWN = {'freed': 'the pool record is freed', 'event': 'the event that delivers the completions is unregistered',
+            'lock': 'the pool lock is destroyed'}
+
+
+def done_queue_knowledge(g, P):
+    """World (held, K): K is what the path knows about the done queue of the pool: 'E' found empty (a truth test of its
+    emptiness, or all its elements detached) while the pool lock was held, '?' nothing, 'N' non-empty.  The knowledge outlives
+    the release of the lock that ends the region in which it was obtained (that is the region the decision belongs to), and
+    is dropped when the pool lock is taken again (a new region: the queue was open to the workers in between and the old
+    answer does not belong to the new region), when a user callback runs (it may submit work, which ends up on the done queue)
+    and when the queue is changed.  A test made without the lock proves nothing."""
+    S = P.S
+    def step(e, w):
+        hd, K = w
+        if P.pool_lock_op(e, 'lock'):
+            return [(True, '?')]
+        if P.pool_lock_op(e, 'unlock'):
+            return [(False, K)]
+        if e['ev'] == 'call' and 'fnexpr' in e:
+            return [(hd, '?')]
+        if P.done_add(e):
+            return [(hd, 'N')]
+        if e['ev'] == 'call' and e.get('callee') in h.LIST_PRIMS:
+            keys = [h.arg_chain(e, i) for i in range(len(e.get('args', [])))]
+            if S.work_done in keys:
+                if e['callee'] in h.DETACH and keys[0] == S.work_done and hd:
+                    return [(hd, 'E')]
+                return [(hd, '?')]
+        return [w]
+    def edge(blk, si, w):
+        hd, K = w
+        if not hd:
+            return w
+        for at in h.atoms_on(blk, si):
+            t = h.empty_test(at, S.work_done)
+            if t is not None:
+                k2 = 'E' if t == 'empty' else 'N'
+                if K != '?' and K != k2:
+                    return None
+                K = k2
+        return (hd, K)
+    return h.worlds(g, (False, '?'), step, edge)
+
+
+def teardown(ctx):
+    """Every item whose work function ran gets its completion: the completions are delivered from the done queue by the
+    handler of the pool event, so a pool that can hold such items (a published one: not an object allocated in the same
+    context) may be released only when its done queue is known empty."""
+    prog = ctx.prog
+    P = Preds(prog)
+    S = P.S
+    P.need('lock', 'work_done', 'ev', 'priv')
+    cs = []
+    for root in h.module_roots(prog):
+        g = h.context_of(prog, root)
+        also = h.pool_pointers(g, S)
+        fresh = h.fresh_objects(g)
+        sites = [e for e in g.events() if h.teardown_kind(e, S, also) is not None and h.teardown_object(e) not in fresh]
+        if sites:
+            cs.append((root, g, sites, also))
+    if not cs:
+        raise AnalysisBroken('pool teardown: no root releases a published pool (free of the pool record, unregistration of the event '
+                             'that delivers completions, destruction of the pool lock)')
+    for root, g, sites, also in cs:
+        W = done_queue_knowledge(g, P)
+        for kind in sorted({h.teardown_kind(e, S, also) for e in sites}):
+            es = [e for e in sites if h.teardown_kind(e, S, also) == kind]
+            bad = [e for e in es if any(w[1] != 'E' for w in W.get(pos(e), ()))]
+            know = sorted({w[1] for e in es for w in W.get(pos(e), ())})
+            what = ', '.join(sorted({'%s(%s) at %s' % (e['callee'], canon(e['args'][0]), e['loc'].split('/')[-1]) for e in (bad or es)}))
+            ctx.ob('R-C12g', '%s:done-queue-empty-at-teardown:%s' % (root.name, kind), not bad, loc=(bad or es)[0]['loc'],
+                   detail='%s [%s] only when the done queue was found empty under the pool lock in the last pool-lock region, with nothing '
+                          'queued and no user callback since: an item still on it has run its work function and would never get its '
+                          'completion; knowledge about the done queue at the call (E empty, N non-empty, ? none): %s%s'
+                          % (TEARDOWN[kind], what, know, '' if not bad else '; NOT known empty on every path'),
+                   path=path_to(g, bad[0]) if bad else None, fn=root.q)
